@@ -63,5 +63,14 @@ int  dnse_tcp_open_conns(int ns);
 void dnse_settle(void);
 /* wait (bounded, real time) until fd is readable; used after sending a UDP reply to libevent's socket */
 void dnse_wait_readable(int fd);
+extern long dnse_stream_sockets;                  /* TCP sockets libevent created (never reset) */
+long dnse_udp_sent_total(void);                   /* datagrams libevent sent to any fake nameserver in this execution */
 extern long dnse_spins;                           /* how often a wait actually had to wait */
+
+/* ---- allocator (replaces mcx_alloc_install for these harnesses): live count + liveness of watched blocks ---- */
+void dnse_alloc_install(void);
+long dnse_alloc_live(void);
+void dnse_watch_reset(void);
+void dnse_watch(const void *p);            /* remember p (currently allocated through the library allocator) */
+int  dnse_is_live(const void *p);          /* 1 while a watched block has not been freed */
 #endif
